@@ -8,7 +8,7 @@ INV = ["RungFilledByDistinctTrials", "ResumeOnlyAfterRungComplete", "PromotedAre
        "PauseAtMilestone", "IdsInSequence", "RemovableOnlyNonPromoted", "BracketsCycleOffsets", "RungAccounting",
        "SuggestEnabled"]
 FLAG_INV = {
-    "slot_handed_twice": "RungFilledByDistinctTrials", "trial_twice_in_rung": "RungFilledByDistinctTrials",
+    "slot_handed_twice": "RungFilledByDistinctTrials", "rung_overfilled": "RungFilledByDistinctTrials", "trial_twice_in_rung": "RungFilledByDistinctTrials",
     "wrong_level": "RungFilledByDistinctTrials", "new_trial_in_upper_rung": "RungFilledByDistinctTrials",
     "resume_in_lowest_rung": "RungFilledByDistinctTrials", "job_outside_current_rung": "RungFilledByDistinctTrials",
     "resume_before_rung_complete": "ResumeOnlyAfterRungComplete", "resume_not_paused": "ResumeOnlyAfterRungComplete",
@@ -17,7 +17,7 @@ FLAG_INV = {
     "pause_at_milestone": "PauseAtMilestone", "decide_off_milestone": "PauseAtMilestone",
     "wrong_max_resource_attr": "PauseAtMilestone", "trial_id_sequence": "IdsInSequence",
     "removable_but_resumable": "RemovableOnlyNonPromoted", "resume_after_removable": "RemovableOnlyNonPromoted",
-    "offsets_not_cycling": "BracketsCycleOffsets", "failed_promoted": "FailedNeverPromoted",
+    "offsets_not_cycling": "BracketsCycleOffsets", "failed_promoted": "FailedNeverPromoted", "failed_promoted_too_few_valid": "FailedNeverPromoted",
 }
 SYSTEMS = {
     "sh31": [[(3, 1), (1, 3)]],
